@@ -36,9 +36,10 @@ def eq(a, b):
 
 
 class CurveMachine(object):
-    def __init__(self, init, res, tag="c0"):
+    def __init__(self, init, res, tag="c0", pool=None):
         import lasio
         self.lasio = lasio
+        self.pool = pool          # arrays the caller hands to several curves / several LASFiles (the same ndarray objects)
         self.res = res
         self.tag = tag
         self.step = -1
@@ -53,6 +54,22 @@ class CurveMachine(object):
                    "data": np.array(c.data, copy=True)} for c in self.las.curves]
 
     # -- helpers ------------------------------------------------------------------------------------
+    def arr(self, seed, rows, nan_at=None):
+        if self.pool is None:
+            return mkarr(seed, rows, nan_at)
+        key = ("1d", seed % 3, rows, nan_at)
+        if key not in self.pool:
+            self.pool[key] = mkarr(seed % 3, rows, nan_at)
+        return self.pool[key]
+
+    def arr2d(self, seed, rows, cols):
+        if self.pool is None:
+            return mk2d(seed, rows, cols)
+        key = ("2d", seed % 2, rows, cols)
+        if key not in self.pool:
+            self.pool[key] = mk2d(seed % 2, rows, cols)
+        return self.pool[key]
+
     def fail(self, oracle, msg):
         self.res.violate(oracle, "[%s] step %d: %s | model=%r real=%r" % (
             self.tag, self.step, msg, [m["orig"] for m in self.L],
@@ -81,7 +98,7 @@ class CurveMachine(object):
         n = len(L)
         if kind == "append":
             _, name, aseed, k = op
-            a = mkarr(aseed, self.rows, k if k % 3 == 0 else None)
+            a = self.arr(aseed, self.rows, k if k % 3 == 0 else None)
             u, d, v = UNITS[k % len(UNITS)], DESCRS[k % len(DESCRS)], VALUES[k % len(VALUES)]
             if k % 5 == 4:
                 las.append_curve_item(self.lasio.CurveItem(name, u, v, d, a))       # the item-level API
@@ -92,7 +109,7 @@ class CurveMachine(object):
             L.append({"orig": name, "unit": u, "value": v, "descr": d, "data": a.copy()})
         elif kind == "insert":
             _, ix, name, aseed, k = op
-            a = mkarr(aseed, self.rows)
+            a = self.arr(aseed, self.rows)
             u, d, v = UNITS[k % len(UNITS)], DESCRS[k % len(DESCRS)], VALUES[k % len(VALUES)]
             if k % 4 == 3:
                 las.insert_curve_item(ix, self.lasio.CurveItem(name, u, v, d, a))
@@ -139,7 +156,7 @@ class CurveMachine(object):
                     tgt = fields["also_ix"] % n
                     kw["ix"] = tgt
             if "data" in fields:
-                a = mkarr(fields["data"], self.rows)
+                a = self.arr(fields["data"], self.rows)
                 kw["data"] = a
                 L[tgt]["data"] = a.copy()
             for f in ("unit", "descr", "value"):
@@ -153,14 +170,14 @@ class CurveMachine(object):
                 return
             _, ii, name, aseed, k = op
             i = ii % n if ii >= 0 else -((-ii - 1) % n) - 1
-            a = mkarr(aseed, self.rows)
+            a = self.arr(aseed, self.rows)
             u, d, v = UNITS[k % len(UNITS)], DESCRS[k % len(DESCRS)], VALUES[k % len(VALUES)]
             las.replace_curve_item(i, self.lasio.CurveItem(name, u, v, d, a))
             L[i] = {"orig": name, "unit": u, "value": v, "descr": d, "data": a.copy()}
         elif kind == "setitem_arr":
             _, keyspec, aseed = op
             key = self.resolve_key(keyspec)
-            a = mkarr(aseed, self.rows)
+            a = self.arr(aseed, self.rows)
             j = self.first_with_session(key)
             las[key] = a
             if j is not None:
@@ -173,7 +190,7 @@ class CurveMachine(object):
             if key.strip() == "":
                 r.count("op-skipped")
                 return
-            a = mkarr(aseed, self.rows)
+            a = self.arr(aseed, self.rows)
             u, d, v = UNITS[k % len(UNITS)], DESCRS[k % len(DESCRS)], VALUES[k % len(VALUES)]
             j = self.first_with_session(key)
             las[key] = self.lasio.CurveItem(key, u, v, d, a)
@@ -201,7 +218,7 @@ class CurveMachine(object):
             if cols == 0:
                 r.count("op-skipped")
                 return
-            A = mk2d(aseed, rows, cols)
+            A = self.arr2d(aseed, rows, cols)
             keep0 = n if truncate else cols
             names = None if names is None else list(names)[:keep0]     # statement: names shorter than or equal to the curve list
             nm = None if names is None else list(names)
